@@ -78,7 +78,9 @@ func (mi *MessageInfo) lazyUnmarshal(p pointer, num protoreflect.FieldNumber) {
 	} else {
 		mi.unmarshalField(lazy.Buffer()[start:end], fp, f, lazy, lazy.UnmarshalFlags())
 	}
+	verifLazyDecoded(mi, p.p, num)
 	p.Apply(f.offset).AtomicSetPointerIfNil(fp.Elem())
+	verifLazyPublished(mi, p.p, num, p.Apply(f.offset).AtomicGetPointer() == fp.Elem())
 }
 
 func (mi *MessageInfo) unmarshalField(b []byte, p pointer, f *coderFieldInfo, lazyInfo *protolazy.XXX_lazyUnmarshalInfo, flags piface.UnmarshalInputFlags) error {
